@@ -43,6 +43,41 @@ def finding_covers(f, prop, spec, params, model):
         return False
 
 
+def safe_replay(spec, params, model, timeout_s=60):
+    """native replay of a solver model in a forked child with a deadline: a changed tree may make the real code loop on the
+    counterexample input; that must not hang the check (reported as an unconfirmed alarm = inconclusive)"""
+    import multiprocessing as mp_
+    from vlib.runner import resolve
+    ctx = mp_.get_context('fork')
+    rd, wr = ctx.Pipe(duplex=False)
+
+    def child():
+        try:
+            r = resolve(spec + '_concrete')(params, model)
+            wr.send(('ok', r))
+        except BaseException as e:
+            wr.send(('exc', repr(e)))
+        finally:
+            wr.close()
+    pr = ctx.Process(target=child)
+    pr.start()
+    if rd.poll(timeout_s):
+        try:
+            kind, val = rd.recv()
+        except EOFError:
+            kind, val = 'exc', 'replay process died'
+    else:
+        kind, val = 'timeout', None
+    if pr.is_alive():
+        pr.terminate()
+    pr.join(5)
+    if kind == 'ok':
+        return val
+    if kind == 'timeout':
+        return None, 'UNCONFIRMED: native replay of the solver model did not finish within %ds' % timeout_s
+    raise RuntimeError(val)
+
+
 def do_replay(path):
     rec = json.load(open(path))
     from vlib.runner import resolve
@@ -104,7 +139,7 @@ def main():
             continue
         # replay on the real code, natively, before believing the solver
         try:
-            ok, detail = resolve(res['spec'] + '_concrete')(res['params'], res['model'])
+            ok, detail = safe_replay(res['spec'], res['params'], res['model'])
         except Exception as e:
             ok, detail = None, 'replay crashed: %r' % (e,)
         if ok is None and str(detail).startswith('UNCONFIRMED'):
@@ -141,7 +176,7 @@ def main():
         for (res, f), r2 in zip(pending_weak, weak):
             if r2['status'] == 'violated':
                 try:
-                    ok2, detail2 = resolve(res['spec'] + '_concrete')(r2['params'], r2['model'])
+                    ok2, detail2 = safe_replay(res['spec'], r2['params'], r2['model'])
                 except Exception as e:
                     ok2, detail2 = None, repr(e)
                 if ok2 is False:
@@ -170,8 +205,8 @@ def main():
         w = f.get('witness')
         if w:
             try:
-                ok, detail = resolve(w['spec'] + '_concrete')(w['params'], w['model'])
-                fails = not ok
+                ok, detail = safe_replay(w['spec'], w['params'], w['model'])
+                fails = ok is False
             except Exception as e:
                 detail = 'witness replay crashed %r' % (e,)
         if fails or f['id'] in known_hits:
